@@ -1,6 +1,8 @@
 package sim
 
 import (
+	"sort"
+	"math/rand/v2"
 	"reflect"
 	"context"
 	"encoding/binary"
@@ -323,8 +325,13 @@ func (m *recStore) Load() (*store.PersistedData, error) {
 
 //go:norace
 func (m *recStore) Save(d *store.PersistedData) error {
-	h := &handedSave{Data: d, Step: m.world.run.curStep() + 1}
 	idx := len(m.handed)
+	if so := m.world.run.sc.Cfg.StoreOrder; so != 0 && d != nil && len(d.Jobs) > 1 {
+		// pin the order of the jobs in the snapshot (in the runner: iteration order of a map)
+		sort.Slice(d.Jobs, func(i, j int) bool { return d.Jobs[i].ID.String() < d.Jobs[j].ID.String() })
+		rand.New(rand.NewPCG(so, uint64(idx))).Shuffle(len(d.Jobs), func(i, j int) { d.Jobs[i], d.Jobs[j] = d.Jobs[j], d.Jobs[i] })
+	}
+	h := &handedSave{Data: d, Step: m.world.run.curStep() + 1}
 	m.handed = append(m.handed, h)
 	var err error
 	if m.inner != nil {
